@@ -618,35 +618,28 @@ def same_shard_keys(prefix, n, shard=None):
 
 
 def final_state(sess, db, keys, now=None):
-    """[(key, impl, code, spec)] where each is (EXISTS, PTTL class, TYPE, size-or-number) read from the server / the models"""
+    """per key, on the three sides (server, model of the code, prescribed store): what the lazily-checked lens shows
+    (EXISTS; type and size-or-number when it exists) and the raw lens (PTTL class, TYPE).  The reads are commands of the
+    vocabulary, so the models see them too (under a central lazy test they remove what they find expired)."""
+    size_cmd = {"string": "GET", "list": "LLEN", "set": "SCARD", "hash": "HLEN", "zset": "ZCARD", "stream": "XLEN"}
     out = []
     for k in keys:
-        c = sess.client(db)
-        ex = c.cmd("EXISTS", k)[1]
-        pt = pttl_class(c.cmd("PTTL", k)[1])
-        ty = c.cmd("TYPE", k)[1].decode()
-        size = None
-        if ex == 1:
-            rd = {"string": ("GET",), "list": ("LLEN",), "set": ("SCARD",), "hash": ("HLEN",), "zset": ("ZCARD",), "stream": ("XLEN",)}.get(ty)
-            if rd:
-                x = c.cmd(rd[0], k)
-                size = int(x[1]) if x[0] in ("i", "b") and str(x[1].decode() if x[0] == "b" else x[1]).lstrip("-").isdigit() else None
+        ex = sess.do(db, S("EXISTS", k))
+        pt = sess.do(db, S("PTTL", k))
+        ty = sess.do(db, S("TYPE", k))
+        tname = bytes.fromhex(ty["impl"].split()[2]).decode() if ty["impl"].startswith("( s ") else "?"
+        sz = sess.do(db, S(size_cmd[tname], k)) if ex["impl"] == "( i 1 )" and tname in size_cmd else None
+        rec = {"key": k.decode()}
+        for side in ("impl", "code", "spec"):
+            e = ex[side] == "( i 1 )"
+            rec[side] = (1, ty[side], sz[side] if sz else None) if e else (0, None, None)
+            rec[side + ("_raw" if side == "impl" else "_raw_lens")] = (reply_key("PTTL", pt[side]), ty[side])
         t = int(sess.ms()) if now is None else now
         code, spec = sess.look(db, k, t).split(" # ")
-        idx = code.split(" idx=")[1]
-        code = code.split(" idx=")[0]
-
-        def vis(entry):
-            """what GET-like (lazily checked) reads would show of a model entry at time t"""
-            if entry == "none":
-                return (0, None, None)
-            ty_, val, dl = entry.split()
-            if dl != "-" and int(dl) < t:
-                return (0, None, None)
-            return (1, ty_, int(val))
-        out.append({"key": k.decode(), "impl": (ex, ty if ex else None, size), "impl_pttl": pt, "impl_type": ty,
-                    "code": vis(code), "spec": vis(spec), "code_raw": code, "idx": idx, "spec_raw": spec})
-        sess.rep.evaluations += 1
+        rec["code_entry"], rec["spec_entry"] = code, spec
+        # kept for the messages
+        rec["impl_pttl"], rec["impl_type"], rec["spec_raw"], rec["code_raw"] = rec["impl_raw"][0], tname, spec, code
+        out.append(rec)
     return out
 
 
@@ -699,7 +692,7 @@ def scenario_running_sweeper(rep, sess):
     sess.ask("collect %d" % now)
     spur = sess.ask("delete %d" % now).split(" ", 1)[1]
     st = final_state(sess, db, keys, now)
-    return {"kind": "running-sweeper", "state": st, "spurious_model": spur, "history": [d for d in sess.log if "cmd" in d]}
+    return {"kind": "running-sweeper", "state": st, "spurious_model": spur, "history": list(sess.log)}
 
 
 def scenario_gate(rep, sess):
@@ -735,7 +728,7 @@ def scenario_gate(rep, sess):
     now = int(sess.ms())
     st = final_state(sess, db, ks, now)
     return {"kind": "gate", "sweep": out, "window": window, "state": st, "keys": [k.decode() for k in ks],
-            "history": [d for d in sess.log if "cmd" in d]}
+            "history": list(sess.log)}
 
 
 # --------------------------------------------------------------------------
@@ -913,7 +906,7 @@ def run_schedule(rep, sess, r, hidx, gate):
         for s in final_state(sess, db, keys):
             s["db"] = db
             fin.append(s)
-            if s["impl"] != s["code"]:
+            if s["impl"] != s["code"] or s["impl_raw"] != s["code_raw_lens"]:
                 sc.disagree.append({"final": s, "why": "dataset after the history differs from the model of the code"})
             if s["impl"] != s["spec"]:
                 sc.oracle.append({"final": s, "why": "dataset after the history differs from the prescribed store", "tags_so_far": list(sc.tags)})
@@ -1036,7 +1029,8 @@ def judge_scenario(v, rep, sc):
     kind = sc["kind"]
     spur = sc.get("spurious_model") if kind == "running-sweeper" else sc["sweep"]["spurious"]
     spur_keys = {bytes.fromhex(x.split(":")[2]).decode() for x in spur.split() if x.startswith("spurious:")}
-    hist = [{"db": d["db"], "cmd": d["cmd"], "at": [d["send"], d["recv"]], "impl": d["impl"], "code": d["code"], "spec": d["spec"]} for d in sc["history"]]
+    hist = [{"db": d["db"], "cmd": d["cmd"], "at": [d["send"], d["recv"]], "impl": d["impl"], "code": d["code"], "spec": d["spec"]} if "cmd" in d
+            else {"sweeper": strip(d["sweep"])} for d in sc["history"]]
     for w in sc.get("window", []):
         rep.nontrivial((kind, "window", w["name"], w["impl"]))
         if w["impl"] != w["spec"]:
@@ -1047,13 +1041,14 @@ def judge_scenario(v, rep, sc):
             v.disagree.append({"kind": kind, "window_cmd": w["cmd"], "impl": w["impl"], "code": w["code"]})
     for s in sc["state"]:
         rep.nontrivial((kind, s["key"], s["impl"][0], s["impl_pttl"]))
-        raw_code = ("none", "-2") if s["code_raw"] == "none" else (s["code_raw"].split()[0], "-1" if s["code_raw"].split()[2] == "-" else None)
-        raw_ok = s["impl_type"] == raw_code[0] and (raw_code[1] is None or s["impl_pttl"] == raw_code[1])
-        if s["impl"] != s["code"] or not raw_ok:
+        if s["impl"] != s["code"] or s["impl_raw"] != s["code_raw_lens"]:
             v.disagree.append({"kind": kind, "key": s["key"], "state": strip(s)})
         if s["impl"] != s["spec"]:
             tag = "spurious:window" if kind == "gate" else "spurious:stale-index"
-            v.oracle([tag] if s["key"] in spur_keys else [], s["impl"] == s["code"],
+            # what explains a different dataset: a spurious delete of this key, or a late-visible command on it earlier
+            tags = ([tag] if s["key"] in spur_keys else []) + sorted({d["tag"] for d in sc["history"] if "cmd" in d and d["tag"] != "-" and
+                                                                       s["key"] in d["cmd"].split()[1:3]})
+            v.oracle(tags, s["impl"] == s["code"],
                      "%s scenario: key %s is %s after the sweeper ran; prescribed: %s" % (kind, s["key"], "absent" if not s["impl"][0] else s["impl"], s["spec_raw"]),
                      {"kind": kind, "key": s["key"], "state": strip(s), "history": hist})
     if kind == "gate" and sc["sweep"]["reached"] != (sc["sweep"]["collected_model"] > 0):
